@@ -1,15 +1,28 @@
 #!/bin/sh
-# setup_cmd: offline build of the Coq development and of the correspondence harness.
+# setup_cmd: offline build of the Coq development and of the correspondence harness, for the
+# properties claimed in MANIFEST.json (tools/pending.json "claimed").
 set -e
 cd "$(dirname "$0")"
 export CARGO_NET_OFFLINE=true
 mkdir -p .cache
 python3 - <<'PY'
-import sys
+import json, sys, importlib, subprocess, os
 sys.path.insert(0, '.')
 from vlib import core
+claimed = json.load(open('tools/pending.json'))['claimed']
 core.coq_makefile()
+targets = ['Common/Hex.vo']
+bins = []
+for pid in claimed:
+    p = importlib.import_module('vlib.' + pid.lower()).PROP
+    targets += ['%s/Properties.vo' % pid, '%s/%s.vo' % (pid, p.exec_mod)]
+    bins.append((p.pkg, p.binname))
+    for extra in getattr(p, 'extra_bins', []):
+        bins.append(extra)
+ok, out = core.coq_build(targets, timeout=3000)
+if not ok:
+    print(out[-3000:]); print('coq build failed'); sys.exit(1)
+for pkg, b in bins:
+    core.harness_build(pkg, b)
+print('setup-ok')
 PY
-(cd coq && timeout 3000 make -f Makefile.coq -j16 >/dev/null 2>.make.err || { tail -30 .make.err; echo "coq build failed"; exit 1; })
-(cd harness && RUSTFLAGS="--cfg metrics_verif" CARGO_TARGET_DIR="$PWD/../.cache/target" cargo +1.74.0 build --offline --release -q 2>&1 | tail -20)
-echo setup-ok
